@@ -64,7 +64,9 @@ class Locale:
             for part in parts[1:]:
                 result = result[part]
         except KeyError:
-            result = default
+            # The default of one caller must not become the cached
+            # value seen by the next one
+            return default
 
         self._key_cache[key] = result
 
